@@ -9,6 +9,8 @@ CONSTANTS
   HandlerSeqs <- C_HSeqs
   UpProgs <- C_UpProgs
   CRProg <- C_CR
+  Forms = {"fresh"}
+  Colls = {}
   QuitOn = FALSE
   QuitDeferred = FALSE
   DefCap = 0
